@@ -30,6 +30,9 @@ def label_expression(lab, rng, free=False, node=0, dyn=None):
         w = rng.choice(WORDS[rng.choice(["MUSS", "SOLL", "KANN", "PFX"])])
         k = rng.choice([1, 3, 5])
         forms = [f"{w} [{k}] O [501]", f"{w} [501] X [{k}]", f"{w} ([{k}] U [2]) O [502]"]
+        if free:
+            # the third kind of invalid composition: a hint or-ed / xor-ed with a format constraint
+            forms += [f"{w} [501] O [901]", f"{w} [902] X [502]", f"{w} [{k}] U ([501] O [901])"]
         if w[0] in "MmSsKk":
             # several modal marks: the invalid composition sits behind a fulfilled / in front of another conditioned part
             forms += [f"Muss [1] {w} [{k}] O [501]", f"{w} [{k}] O [501] Kann [1]", f"Kann [3] {w} [502] X [{k}] Soll [2]"]
@@ -57,6 +60,11 @@ def entry_expression(e, rng, dyn=None, slot=0):
         key = f"{2000 + slot}P"
         dyn[key] = f"[{rng.choice(KEYS[e])}]"
         return "X " + rng.choice([f"[{key}]", f"[{key} 0..1]"])
+    if dyn is not None and e in "TF" and rng.random() < 0.12:
+        # two packages of THIS AHB on different levels of one entry expression (the deeper one on the right)
+        a, b = f"{2000 + slot}P", f"{3000 + slot}P"
+        dyn[a], dyn[b] = ("[1]", "[3]") if e == "T" else ("[3]", "[1]")
+        return f"X [{a}] O ([{b}] U [3])"
     return {"T": rng.choice(["X [1]", "X", "X [2] U [1]", "X [1P]"]), "F": rng.choice(["X [3]", "X [1] U [4]"]),
             "K": rng.choice(["X [5]", "X [5] U [1]"]), "I": rng.choice(["X [1] O [501]", "X [501] X [3]"])}[e]
 
